@@ -1,7 +1,99 @@
 import Mutagen.Driver.Util
+import Mutagen.Model.URL
 namespace Mutagen.Driver.C38
+open Mutagen.Driver Mutagen.Model.URL
 
-/-- Model-side handler for one line of the C38 correspondence stream. -/
-def handle (_line : String) : String := "unimplemented"
+/-!
+Line: `<kind> <first> <raw> <env> <norm>`
+* kind `s` (synchronization) | `f` (forwarding) | `x` (unsupported), first `0|1`;
+* raw: the URL text, hex bytes;
+* env: `-` or `NAME=<hex>,…` — the process environment seen by `os.LookupEnv`;
+* norm: `-` or `<hex in>><hex out>,…` (`!` for an error) — the answers of
+  `filesystem.Normalize` for every string the parsers can ask about in this case.
+
+Output: `err:<class>` or
+`ok <url> <valid|invalid:class> <Format("") hex> <Format(";") hex> <same|diff:<url>|err:<class>>`
+where the last field is `Parse(Format(""))` compared with the first result and
+`<url>` is `proto/user/host/port/path/env` (hex fields).
+-/
+
+def hexStr (s : Str) : String := encHex (charsToBytes s)
+
+def unhexStr (s : String) : Option Str := (decHex s).map bytesToChars
+
+def showErr : Err → String
+  | .unsupportedKind => "unsupported-kind" | .emptyURL => "empty-url"
+  | .emptyUsername => "empty-username" | .emptyHostname => "empty-hostname" | .noHostname => "no-hostname"
+  | .optionLike => "option-like" | .invalidPort => "invalid-port" | .emptyPath => "empty-path"
+  | .invalidEndpoint => "invalid-endpoint" | .emptyContainer => "empty-container"
+  | .missingPath => "missing-path" | .missingEndpoint => "missing-endpoint"
+  | .normalize => "normalize" | .normalizeSocket => "normalize-socket"
+
+def showVErr : VErr → String
+  | .kind => "kind"
+  | .localUser => "local-user" | .localHost => "local-host" | .localPort => "local-port"
+  | .localEnvironment => "local-environment" | .localParameters => "local-parameters"
+  | .sshHost => "ssh-host" | .sshPort => "ssh-port" | .sshEnvironment => "ssh-environment" | .sshOption => "ssh-option"
+  | .dockerHost => "docker-host" | .dockerPort => "docker-port" | .dockerOption => "docker-option"
+  | .protocol => "protocol"
+  | .emptyPath => "empty-path" | .relativePath => "relative-path" | .dockerFirstCharacter => "docker-first-character"
+  | .endpoint => "endpoint" | .relativeSocket => "relative-socket"
+
+def showProtocol : Protocol → String
+  | .local => "local" | .ssh => "ssh" | .docker => "docker" | .unknown => "unknown"
+
+def showPairs (l : List (Str × Str)) : String :=
+  if l.isEmpty then "-" else ";".intercalate (l.map fun (k, v) => s!"{String.ofList k}={hexStr v}")
+
+def showURL (u : URL) : String :=
+  s!"{showProtocol u.protocol}/{hexStr u.user}/{hexStr u.host}/{u.port}/{hexStr u.path}/{showPairs u.environment}"
+
+def showValid (P : Platform) (u : URL) : String :=
+  match ensureValid P u with
+  | .ok () => "valid"
+  | .error e => s!"invalid:{showVErr e}"
+
+def parseKind : String → Option Kind
+  | "s" => some .synchronization | "f" => some .forwarding | "x" => some .unsupported | _ => none
+
+def parseEnv (s : String) : Option (List (Str × Str)) :=
+  (listField s).mapM fun item =>
+    match item.splitOn "=" with
+    | [k, v] => do pure (k.toList, ← unhexStr v)
+    | _ => none
+
+def parseNorm (s : String) : Option (List (Str × Option Str)) :=
+  (listField s).mapM fun item =>
+    match item.splitOn ">" with
+    | [k, "!"] => do pure (← unhexStr k, none)
+    | [k, v] => do pure (← unhexStr k, some (← unhexStr v))
+    | _ => none
+
+def assoc {β : Type} (k : Str) : List (Str × β) → Option β
+  | [] => none
+  | (k', v) :: rest => if k' = k then some v else assoc k rest
+
+/-- The platform of one case: POSIX, not the Docker Desktop extension. -/
+def platform (env : List (Str × Str)) (norm : List (Str × Option Str)) : Platform :=
+  posix false (fun s => (assoc s norm).join) (fun k => assoc k env)
+
+def handle (line : String) : String :=
+  match fields line with
+  | [k, f, raw, env, norm] =>
+    match parseKind k, unhexStr raw, parseEnv env, parseNorm norm with
+    | some kind, some raw, some env, some norm =>
+      let P := platform env norm
+      let first := f == "1"
+      match parse P raw kind first with
+      | .error e => s!"err:{showErr e}"
+      | .ok u =>
+        let f0 := (format u []).getD []
+        let f1 := (format u [';']).getD []
+        let re := match parse P f0 kind first with
+          | .error e => s!"err:{showErr e}"
+          | .ok u' => if u' = u then "same" else s!"diff:{showURL u'}"
+        s!"ok {showURL u} {showValid P u} {hexStr f0} {hexStr f1} {re}"
+    | _, _, _, _ => "bad-line"
+  | _ => "bad-line"
 
 end Mutagen.Driver.C38
